@@ -155,8 +155,11 @@ func (mgEngine) Generate(p *sim.Plan, g *sim.Rng) {
 	switch x := g.Intn(100); {
 	case x < 20: // fault-free
 	default:
-		p.FaultRate = []float64{0.03, 0.08, 0.15}[g.Intn(3)]
-		if g.Bool(0.15) {
+		p.FaultRate = []float64{0.04, 0.1, 0.2}[g.Intn(3)]
+		if g.Bool(0.25) { // one kind only, often
+			p.FaultRate = 0.35
+			p.Faults = []string{mgAllFaults[g.Intn(len(mgAllFaults))]}
+		} else if g.Bool(0.15) {
 			p.Faults = append([]string(nil), mgAllFaults...)
 		} else {
 			perm := g.Perm(len(mgAllFaults))
@@ -182,36 +185,36 @@ func (mgEngine) Generate(p *sim.Plan, g *sim.Rng) {
 		}
 		secs := g.PickInt(1, 3, 3, 3, 3, 10, 30, 120)
 		switch x := g.Intn(1000); {
-		case x < 240:
+		case x < 250:
 			ops = append(ops, mgOp{K: "rec", J: j})
-		case x < 500:
+		case x < 530:
 			d := 0
 			if g.Bool(0.7) {
 				d = g.PickInt(1, 3, 3, 5)
 			}
 			ops = append(ops, mgOp{K: "work", D: d})
-		case x < 730:
+		case x < 770:
 			ops = append(ops, mgOp{K: "env", J: j, V: g.Intn(64)})
-		case x < 810:
+		case x < 850:
 			if g.Bool(0.04) {
 				secs = g.PickInt(600, 2400)
 			}
 			ops = append(ops, mgOp{K: "sleep", D: secs})
-		case x < 835:
+		case x < 870:
 			ops = append(ops, mgOp{K: "expire", J: j})
-		case x < 860:
+		case x < 888:
 			ops = append(ops, mgOp{K: "delresv", J: j})
-		case x < 885:
+		case x < 908:
 			ops = append(ops, mgOp{K: "bindother", J: j})
-		case x < 905:
+		case x < 920:
 			ops = append(ops, mgOp{K: "delpod", J: j})
-		case x < 925:
+		case x < 940:
 			ops = append(ops, mgOp{K: "replpod", J: j, V: g.Intn(8)})
-		case x < 945:
+		case x < 952:
 			ops = append(ops, mgOp{K: "pause", J: j})
-		case x < 965:
+		case x < 976:
 			ops = append(ops, mgOp{K: "unpause", J: j})
-		case x < 975:
+		case x < 984:
 			ops = append(ops, mgOp{K: "deljob", J: j})
 		case x < 992:
 			ops = append(ops, mgOp{K: "restart"})
@@ -273,7 +276,6 @@ type mgJob struct {
 	terminal string // first committed terminal phase
 	evicts   []*mgEvict
 	resvMade []string // reservations the controller created while reconciling this job
-	refLost  bool     // the update that persists spec.reservationOptions.reservationRef failed and was not repaired yet
 	due      time.Time
 	hasDue   bool
 	settleN  int
@@ -541,9 +543,6 @@ func (s *mgSim) onJobVersion(name string, prev, now *sev1alpha1.PodMigrationJob)
 	}
 	j.lastObj = now
 	s.enqueue(j, time.Now()) // watch event -> arbitration handler -> queue
-	if now.Spec.ReservationOptions != nil && now.Spec.ReservationOptions.ReservationRef != nil {
-		j.refLost = false
-	}
 	if prev == nil || prev.UID != now.UID {
 		return
 	}
@@ -652,10 +651,22 @@ func (s *mgSim) ctlGet(c client.Reader, cached bool, key client.ObjectKey, obj c
 		s.view[k] = mgView{obj: v}
 		return nil
 	}
-	err := c.Get(s.ctx, key, obj, opts...)
-	if cached && len(h) > 0 {
-		s.cursor[k] = len(h) - 1
+	if len(h) > 0 {
+		// the newest history entry is the store's object (see latest()): serve a copy of it, exactly what the fake client's Get would
+		// return, without its JSON round trip
+		if cached {
+			s.cursor[k] = len(h) - 1
+		}
+		v := h[len(h)-1].obj
+		if v == nil {
+			s.view[k] = mgView{}
+			return apierrors.NewNotFound(mgGR(kind), key.Name)
+		}
+		mgCopyInto(obj, v)
+		s.view[k] = mgView{obj: v}
+		return nil
 	}
+	err := c.Get(s.ctx, key, obj, opts...)
 	if err == nil {
 		s.view[k] = mgView{obj: obj.DeepCopyObject().(client.Object)}
 	} else if apierrors.IsNotFound(err) {
@@ -793,7 +804,6 @@ func (s *mgSim) funcs() interceptor.Funcs {
 				// the spec update that persists the reservationRef
 				if pj := obj.(*sev1alpha1.PodMigrationJob); pj.Spec.ReservationOptions != nil && pj.Spec.ReservationOptions.ReservationRef != nil {
 					if st := s.getJob(pj.Name); st != nil && (st.Spec.ReservationOptions == nil || st.Spec.ReservationOptions.ReservationRef == nil) {
-						s.cur.refLost = true
 						s.r.Probe("reservation-ref-write-failed")
 					}
 				}
@@ -942,6 +952,7 @@ func (e mgEvictor) Evict(ctx context.Context, job *sev1alpha1.PodMigrationJob, p
 		cls := s.resvClass(seenR, seenPod, target)
 		stCls := s.resvClass(stR, stPod, target)
 		r.Event("evict job %d pod %s gate=%q store=%q", j.idx, pod.Name, cls, stCls)
+		r.Sample("  Evict(job %d, pod %s on %q) received: reservation %s", j.idx, pod.Name, pod.Spec.NodeName, mgResvString(seenR))
 		if cls != "" {
 			r.Fail("evict-gate", cls, "job %s (reservation-first) evicts pod %s (node %q) while its reservation %s is %s: %s",
 				job.Name, pod.Name, pod.Spec.NodeName, ref.Name, cls, mgResvString(seenR))
@@ -1471,13 +1482,11 @@ func (s *mgSim) reconcile(j *mgJob) {
 		}
 	}
 	r.Event("rec job %d err=%v after=%v", j.idx, err != nil, res.RequeueAfter)
-	if len(r.Plan.Ops) < 30 {
-		r.Sample("reconcile job %d -> err=%v requeueAfter=%v", j.idx, err, res.RequeueAfter)
-	}
 }
 
 func (s *mgSim) apply(op mgOp) {
 	r := s.r
+	r.Sample("op %s job=%d v=%d d=%ds", op.K, op.J, op.V, op.D)
 	var j *mgJob
 	if op.J >= 0 && op.J < len(s.jobs) {
 		j = s.jobs[op.J]
@@ -1678,7 +1687,7 @@ func (s *mgSim) quiesce() {
 		if !j.created {
 			continue
 		}
-		o := s.getJob(j.name)
+		o, _ := s.latest("job", j.name).(*sev1alpha1.PodMigrationJob)
 		if o == nil {
 			fmt.Fprintf(&sb, "j%d:gone;", j.idx)
 			continue
